@@ -182,6 +182,142 @@ def process(prog: dict, opts: dict) -> dict:
     return out
 
 
+def compare_outputs_tol(res: dh.ExecResult, gouts: list[dict] | None) -> list[dict]:
+    """As compare_outputs, with ptverif.runprog.compare's rule: integers
+    exactly, floating point within tolerance."""
+    bad = []
+    if gouts is None:
+        return bad
+    for r, (st, out) in enumerate(zip(res.status, res.outputs)):
+        if st["status"] != "ok":
+            continue
+        if out is None or set(out) != set(gouts[r]):
+            bad.append({"rank": r, "what": "output names differ",
+                        "got": sorted(out or {}), "want": sorted(gouts[r])})
+            continue
+        for nm, v in gouts[r].items():
+            why = dh._differs(np.asarray(out[nm]), v)
+            if why:
+                bad.append({"rank": r, "what": f"output {nm!r}: {why}"})
+    return bad
+
+
+def generate_part_code(pl: dh.Pipeline) -> tuple[list[dict | None], list[dict]]:
+    """pytato's own generate_code_for_partition for every rank, with the
+    harness's C target (ptverif/cexec.py) instead of the PyOpenCL one: the
+    function looks generate_loopy up in the pytato namespace at call time, so
+    the target is supplied there, in this process only."""
+    import functools
+
+    import pytato
+    from pytato.distributed.execute import generate_code_for_partition
+
+    from . import cexec
+    real = pytato.generate_loopy
+    prgs: list[dict | None] = []
+    errs = []
+    pytato.generate_loopy = functools.partial(real, target=cexec.make_target())
+    try:
+        for r in range(pl.prog["nranks"]):
+            try:
+                prgs.append(dict(generate_code_for_partition(pl.num[r])))
+            except Exception as ex:      # noqa: BLE001
+                prgs.append(None)
+                errs.append({"rank": r, "exc": type(ex).__name__, "msg": str(ex)[:200]})
+    finally:
+        pytato.generate_loopy = real
+    return prgs, errs
+
+
+def process_real_code(prog: dict, opts: dict) -> dict:
+    """The stage that closes the gap between 'code is generated' and 'code
+    runs': every rank's parts are compiled by generate_code_for_partition (C
+    target, gcc) and executed by the REAL execute_distributed_partition under
+    the controlled scheduler; outputs vs the unpartitioned global NumPy
+    evaluation, every kernel result vs the reference evaluation of its part on
+    the same inputs, traces (integer programs) for DistTrace."""
+    t0 = time.time()
+    sd = opts.get("seed", 0)
+    out: dict[str, Any] = {"id": prog["id"], "n": prog["nranks"], "real_code": True}
+    pl = dh.run_pipeline(prog, seed=sd)
+    out["summary"] = pl.summary()
+    if not all(p is not None for p in pl.num):
+        out["numbered"] = False
+        return out
+    out["numbered"] = True
+    gouts, _ = dh.global_reference(pl.dags, pl.inputs)
+    vt = dh.ValueTable()
+    inst = dh.export_instance(pl, vt)
+    out["inst"] = inst
+    prgs, errs = generate_part_code(pl)
+    out["codegen"] = errs
+    if errs:
+        return out
+    fault = opts.get("selftest_fault")       # binding demonstration only (checks/c08.py)
+    if fault:
+        def spoil(bound: Any) -> Any:
+            def f(**kw: Any) -> dict:
+                if fault == "die":
+                    os._exit(139)
+                res = bound(**kw)
+                return {k: v + 1 for k, v in res.items()}
+            return f
+        prgs = [{pid: spoil(b) for pid, b in d.items()} for d in prgs]
+    rng = np.random.default_rng([sd, zlib.crc32(prog["id"].encode()), 5])
+    runs, traces = [], []
+    integer = dh.dtype_of(prog).kind in "iu"
+    for k in range(opts.get("nreal", 3)):
+        grain = "fine" if k % 3 == 2 else "model"
+        ch = fakempi.ReplayChooser([], then=fakempi.RandomChooser(
+            np.random.default_rng(rng.integers(2 ** 31))))
+        res = dh.ExecHarness(pl, inst, vt, ch, grain=grain, programs=prgs).run()
+        runs.append({"k": k, "grain": grain, "status": res.status, "final": final_of(res),
+                     "stuck": res.stuck, "bad_outputs": compare_outputs_tol(res, gouts),
+                     "choices": res.choices, "anomalies": res.anomalies,
+                     "leftovers": res.leftovers, "kernel_issues": res.kernel_issues,
+                     "steps": res.nsteps})
+        if integer:
+            traces.append({"id": f"{prog['id']}#c{grain[0]}{k}", "events": res.events,
+                           "final": final_of(res), "grain": grain})
+    out["runs"], out["traces"] = runs, traces
+    out["nparts"] = sum(len(p) for p in prgs if p)
+    out["wall"] = time.time() - t0
+    return out
+
+
+def _process_real_many(progs_opts: list[tuple[dict, dict]]) -> list[dict]:
+    """For common.robust_map (a list in, a list out; module level = picklable)."""
+    from .common import ensure_repo_on_path
+    ensure_repo_on_path()
+    ensure_scratch()
+    res = []
+    for p, opts in progs_opts:
+        try:
+            res.append(process_real_code(p, opts))
+        except fakempi.Hang as ex:
+            res.append({"id": p["id"], "hang": str(ex)})
+        except MachineryError as ex:
+            res.append({"id": p["id"], "machinery": str(ex)})
+        except Exception as ex:      # noqa: BLE001
+            import traceback
+            res.append({"id": p["id"], "machinery": f"{type(ex).__name__}: {ex}\n"
+                        + traceback.format_exc()[-1500:]})
+    return res
+
+
+def process_real_all(progs: list[dict], opts: dict, timeout: float = 300) -> list[dict]:
+    """A kernel that kills or hangs its process becomes {"id", "crashed"}."""
+    from .common import robust_map
+    if not progs:
+        return []
+    items = [(p, opts) for p in progs]
+
+    def crashed(item: Any, reason: str) -> dict:
+        return {"id": item[0]["id"], "crashed": reason}
+    return robust_map(_process_real_many, items, crashed=crashed, timeout=timeout,
+                      chunk=max(1, len(items) // (NCPU * 2)))
+
+
 def _process_many(args: tuple[list[dict], dict]) -> list[dict]:
     progs, opts = args
     from .common import ensure_repo_on_path
